@@ -1,5 +1,5 @@
 """C04 — every reported value equals its wire expression on the recorded witness."""
-import tracecheck
+import tracecheck, progs
 
 PID = "C04"
 PROFILE = {"p_ignore": 0.35, "weights": dict(input=0.10, const=0.08, bin=0.45, un=0.06, meth=0.12, ite=0.05, guarded=0.12, ignore=0.01, list=0.01)}
@@ -13,8 +13,31 @@ def oracle(case, rec, group):
     return out
 
 
+REAL = [("snarkjs", progs.BN), ("zkinterface", progs.BN), ("zkifbellman", progs.BLS), ("zkifbulletproofs", progs.C25519)]
+
+
+def post(cov, cases, recs):
+    """the same coherence oracle with the real backend modules' own linear-combination classes (their __add__/__mul__/__neg__)
+    carrying the wires, on the cases whose modulus is that backend's"""
+    sink = []; tot = 0
+    for name, p in REAL:
+        sub = [c for c in cases if c["cfg"]["p"] == p][:150]
+        if not sub: continue
+        try:
+            rr = progs.run_impl_cases(sub, real_backend=name)
+        except Exception as e:
+            sink.append(dict(kind="harness", concrete=False, what="real-backend run (%s) failed" % name, detail=str(e)[-800:])); continue
+        for c, r in zip(sub, rr):
+            tot += 1
+            for v in oracle(c, r, None):
+                v.update(kind="oracle", backend=name, case=dict(cfg=c["cfg"], prog=c["prog"], ins=c["ins"], backend=name))
+                sink.append(v)
+    cov["real_backend_runs"] = tot
+    return sink[:6]
+
+
 def run(tier, seed):
-    return tracecheck.run(PID, tier, seed, PROFILE, oracle, n_quick=450, n_thorough=6000, mask=1 | 4 | 32, mutation_oracle=True,
+    return tracecheck.run(PID, tier, seed, PROFILE, oracle, n_quick=450, n_thorough=6000, mask=1 | 4 | 32, mutation_oracle=True, post=post,
                           extra_assumptions=["C04_coherent_on_final_witness_partial assumes scoped_cmds (computed and checked true on every case of this run)",
                                              "the recorder's assignment is what a file-writing backend would be handed (C10-C12 check the files)"])
 
